@@ -732,3 +732,6 @@ UNITS.append(Unit("C19", "jsonargparse._util:parse_value_or_config", pvc_setup, 
 
 from contracts.any_units import is_pathlike_unit, typehint_init_unit  # noqa: E402
 UNITS += [is_pathlike_unit("C19"), typehint_init_unit("C19")]
+
+from contracts.share import carried as _carried  # noqa: E402
+UNITS += _carried("C19")
